@@ -30,6 +30,10 @@ LAUTH_TRUSTED = [
     "translated from the C++ on every run: LocalAuthMiddleware::process of localauthmiddleware.cpp in the vocabulary of Qhttp/Model/AxPrim.lean (trusted); bridge theorems QhttpBridge.LocalAuth prove that it admits exactly when the value of the configured header is the token byte for byte (name compared up to case) and answers 403 otherwise",
 ]
 
+ROUTE_TRUSTED = [
+    "translated from the C++ on every run: Handler::route of handler.cpp — the loops over middleware, redirects and sub-handlers — in the vocabulary of Qhttp/Model/RxPrim.lean (a middleware carries its verdict for this request, QRegExp is the model's matcher, i.e. any function, a sub-handler's route() is the model's route on that node; substituteCaptures and the percent-encoding of the Location are vocabulary, not translated; trusted); bridge theorem QhttpBridge.Route.route_eq: the translated function IS the model's `route` on the node, for every matcher, path and lists (proved by induction over the shape of the translated loops: a soft obligation, recorded when a rewritten loop is not re-proved)",
+]
+
 SRVP_TRUSTED = [
     "translated from the C++ on every run: ServerPrivate::process of server.cpp, the lambda it connects to headersParsed() included (vocabulary Qhttp/Model/VxPrim.lean; trusted); bridge theorems QhttpBridge.SrvProcess prove that the HTTP socket is created, that disconnected() deletes it, and that the lambda is the model's serverRoute: with a root handler route(socket, path.mid(1)), without one 500",
 ]
@@ -64,11 +68,11 @@ PROPS = {
     "C19": {"count": {"quick": 2500, "thorough": 50000}, "trusted": SOCK_TRUSTED,
             "rule": "1-3 concatenated requests (valid, malformed, garbage) x segmentations x handler behaviours (respond+close at once, later, never) x post-close API calls x late transport events"},
     "C05": {"count": {"quick": 3000, "thorough": 60000},
-            "trusted": SRVP_TRUSTED + SOCK_TRUSTED + ["parameter: QRegExp (indexIn, matchedLength, capturedTexts) — theorems hold for every matcher; the harness supplies Qt's answers for every pattern x every suffix of the path",
+            "trusted": ROUTE_TRUSTED + SRVP_TRUSTED + SOCK_TRUSTED + ["parameter: QRegExp (indexIn, matchedLength, capturedTexts) — theorems hold for every matcher; the harness supplies Qt's answers for every pattern x every suffix of the path",
                                         "modelled, not verified: QChar::digitValue (table dumped from Qt 5.15.8), QString::mid, QString::toUtf8; the place-marker syntax of QString::arg (argScan) is the reference of the specification, proved equal to the code's own reading (tokGo_eq_argScan)"],
             "rule": "random handler trees (depth <= 3, <= 3 sub-handlers, <= 2 redirects and <= 2 middleware per node) over a vocabulary of anchored/unanchored QRegExp patterns and templates with %1 %2 %L1 %%; request targets over a segment alphabet with escapes (%0d%0a, %25, %2f, non-ASCII); 8% two-capture redirects answered with marker-like captures (%2, trailing %, leading digits, empty) against glued / two-marker / non-ASCII-digit templates; instrumented Handler/Middleware subclasses behind the real ServerPrivate::process on SimTcp"},
     "C06": {"count": {"quick": 3000, "thorough": 60000},
-            "trusted": SOCK_TRUSTED + ["parameter: QRegExp and the middleware verdicts (theorems hold for every matcher and every verdict assignment)"],
+            "trusted": ROUTE_TRUSTED + SOCK_TRUSTED + ["parameter: QRegExp and the middleware verdicts (theorems hold for every matcher and every verdict assignment)"],
             "rule": "as C05 with 40% refusing middleware; refusers write a 403 marked with their id so the wire shows who answered"},
     "C07": {"count": {"quick": 1500, "thorough": 30000},
             "trusted": SOCK_TRUSTED + FS_TRUSTED + ["modelled, not verified: QDir::setPath/absoluteFilePath/cleanPath/relativeFilePath, QUrl::fromPercentEncoding, kernel path resolution without symbolic links; parameter: the file system tree (theorems hold for every finite tree)",
@@ -180,6 +184,7 @@ PARSER_ALL = ["QhttpBridge.Parser"]
 FS_ALL = ["QhttpBridge.Fs.AbsolutePath", "QhttpBridge.Fs.Process"]
 
 BRIDGE_NEEDS = {
+    "QhttpBridge.Route": ["Handler::route"],
     "QhttpBridge.Ph": ["ProxyHandler::process"],
     "QhttpBridge.SrvProcess": ["ServerPrivate::process"],
     "QhttpBridge.Srv": ["Server::incomingConnection"],
@@ -218,7 +223,7 @@ BRIDGE_NEEDS = {
 # back to the correspondence tie, like an untranslatable one; they add assurance on trees where they check, not detection.
 # hand inductions over the shape of a translated loop inside otherwise shape-independent bridge modules
 SOFT_THEOREMS = {"QhttpBridge.Parser": ["split_eq", "parseHeaderList_run"]}
-SOFT_BRIDGES = ["QhttpBridge.Proxy.OnUpstreamConnected"]
+SOFT_BRIDGES = ["QhttpBridge.Proxy.OnUpstreamConnected", "QhttpBridge.Route"]
 
 BRIDGES = {
     "C16": RANGE_ALL,
@@ -238,7 +243,8 @@ BRIDGES = {
     "C15": ["QhttpBridge.Slot"],
     "C17": ["QhttpBridge.LocalAuth"],
     "C20": ["QhttpBridge.Srv", "QhttpBridge.SrvProcess"],
-    "C05": ["QhttpBridge.SrvProcess"],
+    "C05": ["QhttpBridge.SrvProcess", "QhttpBridge.Route"],
+    "C06": ["QhttpBridge.Route"],
     "C10": ["QhttpBridge.SrvProcess"],
 }
 ALL_BRIDGE_MODULES = sorted({m for v in BRIDGES.values() for m in v})
